@@ -226,7 +226,11 @@ class Attribute(_BaseAttribute):
             data_attr_type = Attribute.Type(datatype)  
             if not self._can_be_casted(data_attr_type, self.type):
                 raise Attribute.TypeNotMatchingError(data, datatype, self.type)
-            self._data[key] = Vec(data)
+            vec = Vec(data)
+            if data_attr_type != self.type:
+                # widening cast (bool -> int -> float), as the dense storage does
+                vec = vec.astype(self.type.dtype)
+            self._data[key] = vec
         
         else:
             datatype = type(value)
